@@ -1388,6 +1388,18 @@ func (fr *Frame) staticType(e Expr, ptypes map[string]types.Type, pkg *types.Pac
 			S = p.Elem()
 		}
 		if g := fr.vc.prog.ghostField(structKey(S), x.Name); g != nil {
+			// a ghost field declared with a slice type has a Go type: `modifies x.g[:]` then names the element heap of
+			// that type at loop heads (any other ghost type stays untyped here)
+			var gt types.Type
+			func() {
+				defer func() { _ = recover() }()
+				gt = (&Env{vc: fr.vc, pkg: pkg}).ghostType(g)
+			}()
+			if gt != nil {
+				if _, ok := gt.Underlying().(*types.Slice); ok {
+					return gt
+				}
+			}
 			return nil
 		}
 		var spkg *types.Package
@@ -1486,7 +1498,10 @@ func (fr *Frame) staticModKeys(w *writeSet, m Expr, ptypes map[string]types.Type
 		}
 	case *ESlice:
 		t := fr.staticType(x.X, ptypes, pkg)
-		if sl, ok := t.Underlying().(*types.Slice); ok && t != nil {
+		if t == nil {
+			return false
+		}
+		if sl, ok := t.Underlying().(*types.Slice); ok {
 			w.keys[elemKey(sl.Elem())] = true
 			return true
 		}
